@@ -267,3 +267,18 @@ Theorem C13_incr_one_section_same_programs :
   = [OInt 5; OInt 6; OInt 7].
 Proof. exact incr_one_section_same_programs. Qed.
 Print Assumptions C13_incr_one_section_same_programs.
+
+(* RemoveFromList is one critical section of the model (so concurrent AppendToList calls all take effect, by
+   C13_linearizable_all_schedules).  Scanning under the read lock and writing the filtered copy back under a separate
+   write lock loses an append that lands in between: the log has no linearization. *)
+Theorem C13_two_section_remove_refuted :
+  ~ legal DAY 1000
+      (sh_log (fst (run shared local6 (tstep_two_section_remove DAY repaired) (init6 1000 listrace_progs) listrace_sched))).
+Proof. exact two_section_remove_refuted. Qed.
+Print Assumptions C13_two_section_remove_refuted.
+
+Theorem C13_one_section_remove_same_schedule :
+  map snd (sh_log (fst (run shared local (tstep DAY repaired) (init 1000 listrace_progs) listrace_sched)))
+  = [OOk; OOk; OOk; OOk; OVal (VList [sa; su])].
+Proof. exact one_section_remove_same_schedule. Qed.
+Print Assumptions C13_one_section_remove_same_schedule.
